@@ -228,14 +228,6 @@ func NewSchemaComponent(name string, schema Schema, cs Componenter, cfg Config) 
 		IsRenderFormatMethod: isFormatter,
 	}
 
-	if schema.Ref != nil {
-		// a component that is only a $ref to a struct, array or oneOf component must keep its JSON methods
-		switch schema.Base().Type.(type) {
-		case StructureType, SliceType, OneOfStructure:
-			sc.IsAlias = true
-		}
-	}
-
 	switch schema := schema.Type.(type) {
 	case RawBytesType:
 		sc.IsAlias = true
@@ -253,8 +245,24 @@ func NewSchemaComponent(name string, schema Schema, cs Componenter, cfg Config) 
 	return sc
 }
 
-func (s SchemaComponent) Render() (string, error) {
+// isAlias - a component that is only a $ref to a struct, array or oneOf component must keep its JSON methods.
+// The target is looked at when rendering: while components are being built it may not be filled in yet
+// (a reference to a component declared later).
+func (s SchemaComponent) isAlias() bool {
 	if s.IsAlias {
+		return true
+	}
+	if s.Schema.Ref != nil {
+		switch s.Schema.Base().Type.(type) {
+		case StructureType, SliceType, OneOfStructure:
+			return true
+		}
+	}
+	return false
+}
+
+func (s SchemaComponent) Render() (string, error) {
+	if s.isAlias() {
 		return ExecuteTemplate("SchemaComponent_Alias", struct {
 			Name        string
 			Description string
